@@ -1,0 +1,80 @@
+// Licensed to Apache Software Foundation (ASF) under one or more contributor
+// license agreements. See the NOTICE file distributed with
+// this work for additional information regarding copyright
+// ownership. Apache Software Foundation (ASF) licenses this file to you under
+// the Apache License, Version 2.0 (the "License"); you may
+// not use this file except in compliance with the License.
+// You may obtain a copy of the License at
+//
+//     http://www.apache.org/licenses/LICENSE-2.0
+//
+// Unless required by applicable law or agreed to in writing,
+// software distributed under the License is distributed on an
+// "AS IS" BASIS, WITHOUT WARRANTIES OR CONDITIONS OF ANY
+// KIND, either express or implied.  See the License for the
+// specific language governing permissions and limitations
+// under the License.
+
+//go:build verif
+
+// Contracts for the verification harness (comment-only; compiled only with -tags verif).
+// Syntax: see /verif/DESIGN.md §2.2.
+
+package encoding
+
+//@ property C11
+//
+// ---- specification functions ----
+//@ spec func be16(b []byte) uint16 = uint16(b[0])<<8 | uint16(b[1])
+//@ spec func be32(b []byte) uint32 = uint32(b[0])<<24 | uint32(b[1])<<16 | uint32(b[2])<<8 | uint32(b[3])
+//@ spec func be64(b []byte) uint64 = uint64(b[0])<<56 | uint64(b[1])<<48 | uint64(b[2])<<40 | uint64(b[3])<<32 |
+//@                                   uint64(b[4])<<24 | uint64(b[5])<<16 | uint64(b[6])<<8 | uint64(b[7])
+//@ spec func zz(v int64) uint64 = uint64((v << 1) ^ (v >> 63))
+//@ spec func unzz(u uint64) int64 = int64(u>>1) ^ -int64(u&1)
+//
+//@ lemma zigzag_roundtrip(v int64, u uint64)
+//@   mode bv
+//@   ensures unzz(zz(v)) == v
+//@   ensures zz(unzz(u)) == u
+//
+// ---- fixed width (int.go) ----
+//@ func Uint16ToBytes
+//@   mode bv
+//@   modifies dst[len(dst):cap(dst)]
+//@   ensures  length: len(result) == len(dst) + 2
+//@   ensures  prefix: result[:len(dst)] == old(dst[:])
+//@   ensures  value:  be16(result[len(dst):]) == u
+//@ func BytesToUint16
+//@   mode bv
+//@   requires len(src) >= 2
+//@   ensures  result == be16(src)
+//@ func Uint32ToBytes
+//@   mode bv
+//@   modifies dst[len(dst):cap(dst)]
+//@   ensures  length: len(result) == len(dst) + 4
+//@   ensures  prefix: result[:len(dst)] == old(dst[:])
+//@   ensures  value:  be32(result[len(dst):]) == u
+//@ func BytesToUint32
+//@   mode bv
+//@   requires len(src) >= 4
+//@   ensures  result == be32(src)
+//@ func Uint64ToBytes
+//@   mode bv
+//@   modifies dst[len(dst):cap(dst)]
+//@   ensures  length: len(result) == len(dst) + 8
+//@   ensures  prefix: result[:len(dst)] == old(dst[:])
+//@   ensures  value:  be64(result[len(dst):]) == u
+//@ func BytesToUint64
+//@   mode bv
+//@   requires len(src) >= 8
+//@   ensures  result == be64(src)
+//@ func Int64ToBytes
+//@   mode bv
+//@   modifies dst[len(dst):cap(dst)]
+//@   ensures  length: len(result) == len(dst) + 8
+//@   ensures  prefix: result[:len(dst)] == old(dst[:])
+//@   ensures  value:  be64(result[len(dst):]) == zz(v)
+//@ func BytesToInt64
+//@   mode bv
+//@   requires len(src) >= 8
+//@   ensures  roundtrip: result == unzz(be64(src))
